@@ -234,6 +234,8 @@ class Repo:
                     # so is any name that some method of the class assigns on self
                     fi = self.method(cur_cls, f.attr)
                     if fi is not None and f.attr not in ('pack', 'unpack', 'clone') and f.attr not in self.instance_attrs(cur_cls):
+                        if any(isinstance(d_, ast.Name) and d_.id == 'staticmethod' for d_ in fi.node.decorator_list):
+                            return fi.node, None, fi.cls       # no receiver is bound
                         return fi.node, recv, fi.cls
                     return None
                 # Class.method(self, ...)
